@@ -422,7 +422,13 @@ def rule_r5(ctx) -> List[R.Inst]:
             continue
         ec_ok = unparse(ec[0]) in ("len(data) // 4",)
         f_ok = sym.same_formula(exprs[0], f"curr_measure + {iv} / event_count")
-        if ec_ok and f_ok:
+        snapped = [c for c in ast.walk(exprs[0]) if isinstance(c, ast.Call) and call_name(c) in ("round", "int", "floor", "ceil", "trunc")]
+        if snapped:
+            insts.append(R.viol(rid, key, file, exprs[0].lineno,
+                                f"the slot position is rounded ('{unparse(snapped[0])[:60]}'): event i of n sits exactly at measure + i/n; "
+                                f"snapping to a fixed grid moves every package whose slot count does not divide that grid (5, 7, 10, 20 …)",
+                                construct=unparse(exprs[0])))
+        elif ec_ok and f_ok:
             insts.append(R.ok(rid, key, file, exprs[0].lineno, idiom="measure + slot / slots, slots = bytes // 4"))
         elif not f_ok and sym.only_modelled(exprs[0], {"curr_measure", iv, "event_count"}):
             insts.append(R.viol(rid, key, file, exprs[0].lineno,
